@@ -216,11 +216,30 @@ def blend_spec(name, cb, cs, mode):
     return np.nan_to_num(out, nan=0.0, posinf=1.0, neginf=0.0)
 
 
-class Spec:
-    """One evaluation of the published model on a recipe over the pixel domain V."""
+EFFECT_BLEND_NAMES = {"Nrml": "NORMAL", "Mltp": "MULTIPLY", "Scrn": "SCREEN", "Ovrl": "OVERLAY", "Drkn": "DARKEN", "Lghn": "LIGHTEN",
+                      "Dfrn": "DIFFERENCE", "HrdL": "HARD_LIGHT"}
 
-    def __init__(self, V, mode, visible=None):
+
+def stored_color(values, mode):
+    """the colour a descriptor built by pixdoc._color_desc denotes, one float per channel (storage convention)"""
+    if mode == "RGB":
+        return [float(v) / 255.0 for v in values]
+    return [(100.0 - (100.0 - float(v) * 100.0 / 255.0)) / 100.0 for v in values]
+
+
+class Spec:
+    """One evaluation of the published model on a recipe over the pixel domain V.
+
+    Beyond pixel layers and groups it knows what needs no drawing: solid-colour fill layers without an enabled vector mask
+    (an object of that colour over the layer's box), colour overlay effects (one more element of the group, painted with the
+    layer's shape and alpha after masks and layer opacity - not fill opacity - times the effect's opacity) and adjustment
+    layers (nothing).  Gradient / pattern overlays, stroke effects and vector masks need the library's rasteriser:
+    NotImplementedError (no independent oracle for such a document)."""
+
+    def __init__(self, V, mode, visible=None, size=None, force=False):
         self.V = tuple(V)
+        self.size = size
+        self.force = force
         self.mode = mode
         self.C = MODE_CH[mode]
         self.H, self.W = V[3] - V[1], V[2] - V[0]
@@ -261,6 +280,27 @@ class Spec:
             al = np.ones(color.shape[:2]) if n.get("alpha") is None else np.asarray(n["alpha"], dtype=np.float64) / 255.0
             fj = _place(self.V, n["rect"], al, 0.0)
             return Cs, fj, fj.copy()
+        if n["t"] == "fill":
+            vm = n.get("vmask")
+            if vm and (not vm.get("disabled") or vm.get("shape")):
+                raise NotImplementedError("vector mask: needs the rasteriser")
+            if self.size is None:
+                raise NotImplementedError("fill layer without the canvas size")
+            px = n.get("pixels")
+            if px is not None and not self.force:
+                color = np.asarray(px["color"], dtype=np.float64) / 255.0
+                Cs = _place(self.V, n["rect"], color, 1.0)
+                al = np.ones(color.shape[:2]) if px.get("alpha") is None else np.asarray(px["alpha"], dtype=np.float64) / 255.0
+                fj = _place(self.V, n["rect"], al, 0.0)
+                return Cs, fj, fj.copy()
+            l, t, r, b = n.get("rect") or [0, 0, 0, 0]
+            box = [l, t, r if r else self.size[0], b if b else self.size[1]]     # FillLayer.right / .bottom
+            w, h = max(box[2] - box[0], 0), max(box[3] - box[1], 0)
+            col = np.empty((h, w, self.C))
+            col[...] = stored_color(n["fillcolor"], self.mode)
+            Cs = _place(self.V, box, col, 1.0)
+            fj = _place(self.V, box, np.ones((h, w)), 0.0)
+            return Cs, fj, fj.copy()
         # a group: a stack over the current backdrop (non-isolated) or over nothing (isolated);
         # an element with the knockout flag sees the initial backdrop of the stack it is in
         Pb, ab = (P_0, a_0) if n.get("knockout") else (P_b, a_b)
@@ -282,12 +322,36 @@ class Spec:
                 out.append((n, [], not n.get("clip")))
         return [(b, c) for b, c, _ in out]
 
+    def overlays(self, n):
+        """[(colour per channel, opacity, blend name)] of the enabled colour overlays of a node"""
+        fx = n.get("effects")
+        if not fx or not fx.get("master", True):
+            return []
+        out = []
+        for e in fx.get("items", []):
+            if not e.get("enabled", True):
+                continue
+            if e["kind"] != "color":
+                raise NotImplementedError(e["kind"] + " effect: needs the library's drawing")
+            out.append((stored_color(e["color"], self.mode), float(e.get("opacity", 100)) / 100.0,
+                        EFFECT_BLEND_NAMES[e.get("blend", "Nrml")]))
+        # the compositor paints colour overlays first (then pattern, then gradient): one kind here, in list order
+        return out
+
+    def paint_overlays(self, n, P, a, fg, ag, P_0, a_0, fj, aj):
+        fm, qm, _, qk = self.factors(n)
+        for col, op, blend in self.overlays(n):
+            Ce = np.empty((self.H, self.W, self.C))
+            Ce[...] = col
+            P, a, fg, ag = self.step({"blend": blend, "knockout": False}, P, a, fg, ag, P_0, a_0, Ce, fj * fm, aj * (fm * qm) * qk * op)
+        return P, a, fg, ag
+
     def stack(self, nodes, P_0, a_0):
         P, a = P_0.copy(), a_0.copy()
         fg = np.zeros((self.H, self.W))
         ag = np.zeros((self.H, self.W))
         for base, clips in self.runs(nodes):
-            if not self.visible(base):
+            if not self.visible(base) or base["t"] == "adjustment":
                 continue
             Cs, fj, aj = self.source(base, P, a, P_0, a_0)
             clips = [c for c in clips if self.visible(c)]
@@ -299,6 +363,7 @@ class Spec:
             fs = fj * fm * fk
             as_ = aj * (fm * qm) * (fk * qk)
             P, a, fg, ag = self.step(base, P, a, fg, ag, P_0, a_0, Cs, fs, as_)
+            P, a, fg, ag = self.paint_overlays(base, P, a, fg, ag, P_0, a_0, fj, aj)
         return P, a, fg, ag
 
     def stack_plain(self, nodes, P_0, a_0):
@@ -307,9 +372,12 @@ class Spec:
         fg = np.zeros((self.H, self.W))
         ag = np.zeros((self.H, self.W))
         for n in nodes:
+            if n["t"] == "adjustment":
+                continue
             Cs, fj, aj = self.source(n, P, a, P_0, a_0)
             fm, qm, fk, qk = self.factors(n)
             P, a, fg, ag = self.step(n, P, a, fg, ag, P_0, a_0, Cs, fj * fm * fk, aj * (fm * qm) * (fk * qk))
+            P, a, fg, ag = self.paint_overlays(n, P, a, fg, ag, P_0, a_0, fj, aj)
         return P, a, fg, ag
 
     def step(self, n, P, a, fg, ag, P_0, a_0, Cs, fs, as_):
@@ -329,9 +397,9 @@ class Spec:
         return P, _union(a_0, ag), fg, ag
 
 
-def spec_composite(recipe, V, mode, color=None, alpha=None, visible=None):
+def spec_composite(recipe, V, mode, color=None, alpha=None, visible=None, size=None, force=False):
     """(colour straight, shape, alpha, unstable) of the published model over the domain V = (l, t, r, b)"""
-    sp = Spec(V, mode, visible)
+    sp = Spec(V, mode, visible, size, force)
     C0 = np.ones((sp.H, sp.W, sp.C)) if color is None else np.asarray(color, dtype=np.float64).reshape(sp.H, sp.W, -1)
     if C0.shape[2] == 1 and sp.C > 1:
         C0 = np.repeat(C0, sp.C, axis=2)
@@ -842,6 +910,18 @@ def shrink_doc(doc, fails, budget=250):
             if n0.get("blend") not in ("NORMAL", "PASS_THROUGH", None): cands.append(("blend", "NORMAL"))
             if n0["t"] == "group" and n0.get("blend") == "NORMAL": cands.append(("blend", "PASS_THROUGH"))
             if n0.get("mask"): cands.append(("mask", None))
+            fx0 = n0.get("effects")
+            if fx0:
+                cands.append(("effects", None))
+                for k in range(len(fx0.get("items", []))):
+                    if len(fx0["items"]) > 1:
+                        cands.append(("effects", dict(fx0, items=fx0["items"][:k] + fx0["items"][k + 1:])))
+                for k, e in enumerate(fx0.get("items", [])):
+                    if e.get("blend", "Nrml") != "Nrml":
+                        cands.append(("effects", dict(fx0, items=fx0["items"][:k] + [dict(e, blend="Nrml")] + fx0["items"][k + 1:])))
+            if n0["t"] == "fill":
+                if n0.get("vmask"): cands.append(("vmask", None))
+                if n0.get("pixels") is not None: cands.append(("pixels", None))
             if n0["t"] == "pixel":
                 if n0.get("alpha") is not None and (np.asarray(n0["alpha"]) < 255).any():
                     cands.append(("alpha", np.full(np.asarray(n0["alpha"]).shape, 255, np.uint8)))
